@@ -71,11 +71,17 @@ func (self *supportedFeatures) Resolve(f *IfFeature) (bool, error) {
 func checkFeature(m HasIfFeatures) (bool, error) {
 	if len(m.IfFeatures()) > 0 {
 		mod := RootModule(m.(Meta))
+		// every expression is evaluated so a malformed one is reported even
+		// when another one is already false
+		allOn := true
 		for _, iff := range m.IfFeatures() {
-			if on, err := mod.featureSet.Resolve(iff); err != nil || !on {
+			on, err := mod.featureSet.Resolve(iff)
+			if err != nil {
 				return false, err
 			}
+			allOn = allOn && on
 		}
+		return allOn, nil
 	}
 	return true, nil
 }
